@@ -74,14 +74,28 @@ Definition lexeme_bytes (z : input) : option (list Z) :=
   if slice_ok (start z) (pos z) (len (buf z)) then Some (slice (buf z) (start z) (pos z)) else None.
 
 (* --- positionContext ---------------------------------------------------------------------------- *)
-(* for { c := l.Peek(0); if c == 0 && l.Err() != nil || c == '\n' || c == '\r' { break }; l.Move(1) }
-   structural recursion on the remaining buffer l = buf[p:]; returns the final pos;
-   running off the buffer is a panic of Peek *)
+(* for { c := l.Peek(0)
+         if c == 0 && l.Err() != nil || c == '\n' || c == '\r' { break }
+         else if c == 0xE2 && l.Peek(1) == 0x80 && (l.Peek(2) == 0xA8 || l.Peek(2) == 0xA9) { break }
+         l.Move(1) }
+   structural recursion on the remaining buffer l = buf[p:]; returns the final pos; running off the buffer
+   is a panic of Peek (also of Peek(1) / Peek(2), which && evaluates only after the tests before them) *)
 Fixpoint ctx_scan (z : input) (l : list Z) (p : Z) : option Z :=
   match l with
   | [] => None
   | c :: t =>
       if ((c =? 0) && negb (peek_err (with_pos z p) 0 =? 0)) || (c =? 10) || (c =? 13) then Some p
+      else if c =? 226 then
+        match t with
+        | [] => None
+        | c1 :: t1 =>
+            if c1 =? 128 then
+              match t1 with
+              | [] => None
+              | c2 :: _ => if (c2 =? 168) || (c2 =? 169) then Some p else ctx_scan z t (p + 1)
+              end
+            else ctx_scan z t (p + 1)
+        end
       else ctx_scan z t (p + 1)
   end.
 
@@ -125,16 +139,20 @@ Section WithGraphic.
 
   Definition disp (r : Z) : Z := if graphic r then r else 183.     (* '·' *)
 
-  (* fmt.Sprintf("%5d: %s%s%s\n", line, front, string(rs), rear) *)
+  (* prefix := fmt.Sprintf("%5d: ", line) *)
+  Definition line_prefix (line : Z) : list Z := pad_left 5 (fmt_d line) ++ [58; 32].
+
+  (* fmt.Sprintf("%s%s%s%s\n", prefix, front, string(rs), rear) without the line feed *)
   Definition first_line (line : Z) (c : ctxparts) : list Z :=
-    pad_left 5 (fmt_d line) ++ [58; 32] ++ ellipsis (c_front c) ++ map disp (c_body c) ++ ellipsis (c_rear c).
+    line_prefix line ++ ellipsis (c_front c) ++ map disp (c_body c) ++ ellipsis (c_rear c).
 
-  (* ... + fmt.Sprintf("%s^", strings.Repeat(" ", 6+col)) ; Repeat panics on a negative count *)
+  (* ... + fmt.Sprintf("%s^", strings.Repeat(" ", len(prefix)-1+col)) ; Repeat panics on a negative count *)
   Definition render (line : Z) (c : ctxparts) : option (list Z) :=
-    if 6 + c_col c <? 0 then None
-    else Some (first_line line c ++ [10] ++ repeat 32 (Z.to_nat (6 + c_col c)) ++ [94]).
+    let n := len (line_prefix line) - 1 + c_col c in
+    if n <? 0 then None
+    else Some (first_line line c ++ [10] ++ repeat 32 (Z.to_nat n) ++ [94]).
 
-  (* the runes of the whole line the cursor is in (from start to the next \n, \r or the end) *)
+  (* the runes of the whole line the cursor is in (from start to the next \n, \r, U+2028, U+2029 or the end) *)
   Definition context_line (z : input) : option (list Z) :=
     if pos z <? 0 then None else
     p <- ctx_scan z (skipz (pos z) (buf z)) (pos z) ;;
